@@ -714,8 +714,59 @@ pub fn random_nodes(rng: &mut Rng) -> Vec<Node> {
     random_program(rng, 3)
 }
 
+/// Very many complete chains one after the other (nothing nested deeper than two levels): whatever the
+/// assembler counts while it reads conditionals comes back to where it was after every chain.
+fn many_chains(ctx: &Ctx) {
+    // (text of one chain, the lines of it that are assembled)
+    let shapes: Vec<(&str, &str, &str)> = vec![
+        ("taken-then-elif", ".if 1\n.dw 1\n.elif 1\n.dw 2\n.endif\n", ".dw 1\n"),
+        ("untaken-then-elif", ".if 0\n.dw 1\n.elif 1\n.dw 2\n.endif\n", ".dw 2\n"),
+        ("untaken-then-else", ".if 0\n.dw 1\n.else\n.dw 2\n.endif\n", ".dw 2\n"),
+        ("taken-then-else", ".if 1\n.dw 1\n.else\n.dw 2\n.endif\n", ".dw 1\n"),
+        ("untaken-alone", ".if 0\n.dw 1\n.endif\n.dw 5\n", ".dw 5\n"),
+        ("taken-alone", ".if 1\n.dw 1\n.endif\n", ".dw 1\n"),
+        ("nested-in-taken", ".if 1\n.if 0\n.dw 1\n.elif 1\n.dw 2\n.endif\n.dw 3\n.else\n.dw 4\n.endif\n", ".dw 2\n.dw 3\n"),
+        ("nested-in-untaken", ".if 0\n.if 1\n.dw 1\n.elif 1\n.dw 9\n.endif\n.elif 0\n.dw 2\n.else\n.dw 3\n.endif\n", ".dw 3\n"),
+        ("ifdef-else", ".ifdef never_defined_flag\n.dw 1\n.else\n.dw 2\n.endif\n", ".dw 2\n"),
+        ("ifndef-elif-else", ".ifndef never_defined_flag\n.dw 1\n.elif 1\n.dw 2\n.else\n.dw 3\n.endif\n", ".dw 1\n"),
+        ("three-elifs-after-taken", ".if 1\n.dw 1\n.elif 1\n.dw 2\n.elif 0\n.dw 3\n.elif 1\n.dw 4\n.else\n.dw 5\n.endif\n", ".dw 1\n"),
+        ("taken-elif-holding-a-chain", ".if 0\n.dw 1\n.elif 1\n.if 1\n.dw 2\n.elif 1\n.dw 3\n.endif\n.else\n.dw 4\n.endif\n", ".dw 2\n"),
+    ];
+    let counts: Vec<usize> = if ctx.tier == fw::Tier::Thorough { vec![130, 260, 1000, 33000, 70000, 140000] } else { vec![260, 70000] };
+    let mut jobs: Vec<(String, String, String, usize)> = vec![];
+    for n in counts.iter() {
+        for (name, full, kept) in shapes.iter() {
+            jobs.push((format!("{}/{}", name, n), full.repeat(*n), kept.repeat(*n), kept.matches(".dw").count() * *n));
+            if *n <= 1000 {
+                // the same inside the body of a macro that is called once
+                jobs.push((format!("{}/in-macro-body/{}", name, n), format!(".macro chains\n{}.endm\n\tchains\n", full.repeat(*n)), kept.repeat(*n), kept.matches(".dw").count() * *n));
+            }
+        }
+        let mixed_full: String = (0..*n).map(|i| shapes[i % shapes.len()].1).collect();
+        let mixed_kept: String = (0..*n).map(|i| shapes[i % shapes.len()].2).collect();
+        let words = mixed_kept.matches(".dw").count();
+        jobs.push((format!("mixed/{}", n), mixed_full, mixed_kept, words));
+    }
+    fw::par_items(&jobs, |_, (name, full, kept, words)| {
+        let a = fw::build_str(full);
+        let b = fw::build_str(kept);
+        ctx.eval(1);
+        ctx.count("many_chains_builds", 1);
+        let ok = a == b && matches!(&a, Outcome::Ok(r) if r.code.len() == 2 * words);
+        if !ok {
+            let shape = name.split('/').next().unwrap_or("");
+            ctx.violation(
+                format!("cond/many-chains-in-a-row/{}{}", shape, if name.contains("in-macro-body") { "/in-macro-body" } else { "" }),
+                format!("{} chains one after the other ({}): {} - with the unselected lines deleted: {}", name.rsplit('/').next().unwrap_or(""), shape, fw::clip(&format!("{:?}", a.brief()), 140), fw::clip(&format!("{:?}", b.brief()), 80)),
+                json!({"source": full, "deleted": kept, "detail": {"many_chains": name}}),
+            );
+        }
+    });
+}
+
 pub fn run(ctx: &Ctx) -> i32 {
     deep_nesting_in_skipped_text(ctx);
+    many_chains(ctx);
     let max_arms = ctx.tier.pick(3usize, 5usize);
     let n_enum = enumerated(ctx, max_arms, true);
     ctx.put("enumerated_programs", json!(n_enum));
